@@ -210,7 +210,14 @@ func Build(cfg Config, handler http.Handler) (*vanguard.Transcoder, error) {
 		to = append(to, vanguard.WithUnknownHandler(cfg.Unknown))
 	}
 	to = append(to, cfg.TOpts...)
-	services := []*vanguard.Service{vanguard.NewServiceWithSchema(svc, handler, so...)}
+	var services []*vanguard.Service
+	if cfg.Decoy {
+		// ... and one BEFORE it, with the narrowest options: what an earlier service was given
+		// must not accumulate into a later one that leaves the option unset
+		services = append(services, vanguard.NewServiceWithSchema(decoy0Service(), handler,
+			vanguard.WithTargetProtocols(vanguard.ProtocolGRPC), vanguard.WithTargetCodecs("proto"), vanguard.WithNoTargetCompression()))
+	}
+	services = append(services, vanguard.NewServiceWithSchema(svc, handler, so...))
 	if cfg.Decoy {
 		services = append(services, vanguard.NewServiceWithSchema(decoyService(), handler,
 			vanguard.WithTargetProtocols(vanguard.ProtocolConnect, vanguard.ProtocolGRPC, vanguard.ProtocolGRPCWeb),
@@ -532,6 +539,22 @@ var (
 	decoyOnce sync.Once
 	decoySvc  protoreflect.ServiceDescriptor
 )
+
+var (
+	decoy0Once sync.Once
+	decoy0Svc  protoreflect.ServiceDescriptor
+)
+
+func decoy0Service() protoreflect.ServiceDescriptor {
+	decoy0Once.Do(func() {
+		var err error
+		decoy0Svc, err = BuildService("verif/decoy0/svc.proto", "verif.decoy0", "Decoy0", []MethodSpec{{Name: "Noop"}})
+		if err != nil {
+			panic(err)
+		}
+	})
+	return decoy0Svc
+}
 
 func decoyService() protoreflect.ServiceDescriptor {
 	decoyOnce.Do(func() {
